@@ -4,9 +4,10 @@
   links as a native executable.
 -/
 import DateutilVerif.Ops.Base
+import DateutilVerif.Ops.RRule
 
 def handlers : List (String → List String → Option String) :=
-  [Ops.Base.handle]
+  [Ops.Base.handle, Ops.RRule.handle]
 
 def dispatch (line : String) : String :=
   match (line.trimAscii.toString.splitOn " ").filter (· ≠ "") with
